@@ -31,58 +31,18 @@ theorem never_older_after_newer {s : State} (hr : Reachable s) {r : Nat} {rc : R
   rw [List.pairwise_cons] at h2
   exact h2.1 b (by simp)
 
-theorem quiescent_cell {s : State} (hinv : Inv s) (hq : Quiescent s) :
-    ∀ (k : Nat) (c : Nat) (cell : Cell), s.cells[c]? = some cell → (cell.depth - rootDepth s).toNat = k →
-      cell.val = lastSent s ∧ cell.closed = !s.senderAlive := by
-  intro k
-  induction k using Nat.strongRecOn with
-  | ind k ih =>
-    intro c cell hc hk
-    obtain ⟨rc, hrc, hrp, hrcl⟩ := hinv.rootOk
-    cases hp : cell.parent with
-    | none =>
-      have := hinv.parentNone c cell hc hp
-      subst this
-      rw [hc] at hrc; cases hrc
-      exact ⟨(lastSent_eq hc).symm, hrcl⟩
-    | some p =>
-      obtain ⟨pc, hpc, hd, hl⟩ := hinv.parentSome c cell p hc hp
-      have hdp := (hinv.leRoot p pc hpc).2
-      have ihp := ih (pc.depth - rootDepth s).toNat (by omega) p pc hpc rfl
-      -- what quiescence says about this hop
-      have q1 := hq (.fwdSend c) rfl
-      have q2 := hq (.store c) rfl
-      have q3 := hq (.fwdTake c) rfl
-      have q4 := hq (.fwdExit c) rfl
-      have q5 := hq (.storeEof c) rfl
-      simp only [step, hc, hp, hpc] at q1 q2 q3 q4 q5
-      have hh : cell.hold = none := by
-        cases hh : cell.hold with
-        | none => rfl
-        | some v => simp [hh] at q1
-      have hw : cell.wire = [] := by
-        cases hw : cell.wire with
-        | nil => rfl
-        | cons v rest => simp [hw] at q2
-      simp only [hh, hw] at q3 q4 q5
-      have hlq := link_quiescent hl hh hw
-        (by
-          cases hfd : cell.fdone with
-          | true => exact Or.inl rfl
-          | false =>
-            right
-            by_cases hv : pc.ver = cell.fseen
-            · exact hv
-            · simp [hfd, hv] at q3)
-        (by
-          rintro ⟨hfd, hv, hcl⟩
-          simp [hfd, hv, hcl] at q4)
-        (by
-          intro hfd
-          cases hcl : cell.closed with
-          | true => rfl
-          | false => simp [hfd, hcl] at q5)
-      exact ⟨hlq.1.trans ihp.1, hlq.2.trans ihp.2⟩
+/-
+"Eventually" is stated the way DESIGN.md 3.6 prescribes: judged at quiescence.  What is NOT proved here is
+the companion measure (no livelock): once `send`/`transfer…` labels stop, the internal labels
+`fwdTake/fwdSend/fwdExit/store/storeEof` can only be taken finitely often, i.e.
+
+    theorem forwarding_terminates : ∀ s, Reachable s → ∃ n, ∀ ls, (∀ l ∈ ls, l.internal) →
+        (every label of ls is enabled when taken from s) → ls.length ≤ n
+
+(each hop forwards at most once per version change of its upstream, so the bound is the sum over cells of
+the pending versions along the path to the root).  The harness observes it on the real system: every
+`settle` returns.  Scheduler fairness is assumed.
+-/
 
 /-- (convergence, any hop count) In every reachable quiescent state — no forwarder, port or remote store has
 anything left to do — every cell of the forest, however many hops from the sender, holds the last value
